@@ -326,6 +326,15 @@ def run_sim(dendropy, case, rng):
             return fn(b, d, birth_rate_sd=float(Fraction(p.get("bsd", "0"))), death_rate_sd=float(Fraction(p.get("dsd", "0"))),
                       rng=rng, **kw), None
         return birthdeath.fast_birth_death_tree(b, d, rng=rng, **kw), None
+    if sim == "dbd":
+        try:
+            return treesim.discrete_birth_death_tree(float(Fraction(p["b"])), float(Fraction(p["d"])), ntax=p["n"],
+                                                     repeat_until_success=p["repeat"], rng=rng), None
+        except dendropy.utility.error.TreeSimTotalExtinctionException:
+            # documented outcome when repeat_until_success is False: a one-node stand-in keeps the two runs comparable
+            t = dendropy.Tree()
+            t.seed_node.label = "TOTAL-EXTINCTION"
+            return t, "extinct"
     if sim == "pb":
         tns = mk_namespace(dendropy, p["ns"])
         return treesim.uniform_pure_birth_tree(tns, float(Fraction(p.get("b", "1"))), rng=rng), None
@@ -606,6 +615,9 @@ def one_case(ctx, dendropy, case, pending, compare=True):
             o_taxa(tree, problems)
             o_equidistant(tree, exact, problems)
             nontrivial = nl >= 4 or bool(case.get("_restarts"))
+        elif sim == "dbd":
+            nontrivial = nl >= 4     # outside clauses (a)-(c) (generation-wise growth may overshoot): clause (d) only
+            problems[:] = [x for x in problems if x[0] in ("nondeterministic", "wellformed") or x[0].startswith("global_rng")]
         elif sim == "pb":
             if nl != max(1, p["ns"][1]):
                 problems.append(("tip_count", "namespace of %d taxa, tree has %d leaves" % (p["ns"][1], nl)))
@@ -936,8 +948,12 @@ def run(ctx):
             case = gen_pb(rng, max_n)
         elif r < 0.68:
             case = gen_king(rng, max_n)
-        elif r < 0.90:
+        elif r < 0.88:
             case = gen_cont(rng, ctx.pick(5, 8))
+        elif r < 0.90:
+            case = {"sim": "dbd", "params": {"b": rng.choice(["1/4", "3/8", "1/2"]), "d": rng.choice(["0", "1/8", "1/4"]),
+                                             "n": rng.randint(2, 12), "repeat": rng.random() < 0.5},
+                    "rng": {"kind": "real", "seed": rng.getrandbits(32)}}
         else:
             case = gen_rv(rng)
         one_case(ctx, dendropy, case, pending)
